@@ -50,6 +50,19 @@ Theorem C05_read_update : forall shell s0 s1 dflt, wf_file s1 -> shell < length 
 Proof. exact read_update. Qed.
 Print Assumptions C05_read_update.
 
+(* the list of bounds: each group is read by the class its stored type names, so any list -- in particular one whose first
+   entry is a nautilus bound because the unit-cube shell was removed as empty -- is read back entry by entry *)
+Require Import NV.Codec2 NV.Codec2Proofs NV.BoundList.
+Theorem C05_bounds_read : forall any_cube all_cube alen tnat nlayers l, Forall (wf_sbound any_cube all_cube alen tnat nlayers) l ->
+  r_bounds any_cube all_cube alen tnat nlayers (map w_sbound l) = Some (map persisted_sbound l).
+Proof. exact r_w_bounds. Qed.
+Print Assumptions C05_bounds_read.
+(* regression witness: the reader as found (position decides the class) turns a nautilus bound in first position into the unit cube *)
+Theorem C05_bounds_read_asis_refuted : forall any_cube all_cube alen tnat nlayers b,
+  exists c, r_sbound_asis any_cube all_cube alen tnat nlayers 0 (w_sbound (SNaut b)) = Some (SCube c).
+Proof. exact r_sbound_asis_refuted. Qed.
+Print Assumptions C05_bounds_read_asis_refuted.
+
 (* and that is all a batch or a toggle changes in the shell machine: one shell (its bound, exploration counters and
    position unchanged), the transfer marks and n_like -- resp. only the flag *)
 Theorem C05_batch_frame : forall contains in_cube lik blob n_batch s idx rounds vals s',
